@@ -3,6 +3,7 @@ CONSTANTS
   Scenario = "await"
   N = 1
   Cap = 16
+  Kinds <- KindsNone
   GenK = 1
 VIEW View
 INVARIANT Inv_NoLostWake
